@@ -392,6 +392,12 @@ func propC15(run *Run, n int) {
 		out := addC15Case(run, ch.o, ch.label, a, b, hist)
 		lines = append(lines, out)
 	}
+	// keys that differ only by case (ties of any case-insensitive ordering): Diff computed again and again
+	for _, o := range []OptSet{OptNone, OptMerge, OptSetO} {
+		a := VObj("id", VNum(1), "Id", VNum(2), "ID", VNum(3), "iD", VNum(4), "name", VStr("x"))
+		b := VObj("id", VNum(10), "Id", VNum(20), "ID", VNum(30), "iD", VNum(40), "name", VStr("y"))
+		lines = append(lines, addC15Case(run, o, "case-variant-keys", VObj("o", a), VObj("o", b), []int{0, 0, 0, 0, 0, 2, 4}))
+	}
 	// hand-written merge diffs in which one hunk adds a container and a later hunk writes inside it
 	for _, t := range []string{
 		"^ {\"Merge\":true}\n@ [\"a\"]\n+ {\"x\":1}\n^ {\"Merge\":true}\n@ [\"a\",\"y\"]\n+ 2\n",
